@@ -88,7 +88,10 @@ class ThermochemGroupAdditive(ThermochemBase):
     get_HoRT.__doc__ = ThermochemBase.get_HoRT.__doc__
 
     def get_Selements(self):
-        mol = Chem.rdmolops.AddHs(Chem.MolFromSmiles(self.name))
+        mol = self.name
+        if not isinstance(mol, Chem.Mol):
+            mol = Chem.MolFromSmiles(mol)
+        mol = Chem.rdmolops.AddHs(mol)
         atoms = mol.GetAtoms()
         S_ele = 0
         for atom in atoms:
